@@ -555,7 +555,7 @@ struct Runner
                 else
                 {
                     std::string kind = tok == "Z" ? "zero" : d.s("sv" + std::to_string(svid), "rnd");
-                    VecL v0 = gen_start(kind, cx.n, (uint64_t) d.i("seed", 1) + 31 * svid, sp ? sp->blk : (int) d.i("blk", 0), sp && sp->Q.size() ? &sp->Q : NULL);
+                    VecL v0 = gen_start(kind, cx.n, (uint64_t) d.i("seed", 1) + 31 * svid, sp ? sp->blk : (int) d.i("blk", 0), sp && sp->Q.size() ? &sp->Q : NULL, (int) d.i("dlt", -9));
                     Vec v(cx.n);
                     for (int i = 0; i < cx.n; i++)
                         v[i] = Scalar((Real) v0[i]);
